@@ -627,9 +627,10 @@ theorem rfc_bye (ss : List UInt32) (r : Option Bytes) (bs : Bytes) (h : marshalO
 /-! ### TWCC -/
 
 /-- the fixed part of a TWCC body, read at its RFC offsets (relative to the body) -/
-theorem twcc_fields (s m : UInt32) (b c : UInt16) (r : UInt32) (f : UInt8) (pl Z : Bytes) (hr : r.toNat < 16777216) :
+theorem twcc_fields (s m : UInt32) (b c : UInt16) (r : UInt32) (f : UInt8) (pl Z : Bytes) :
     let B := twccBody s m b c r f pl ++ Z
-    w32 B 0 = s ∧ w32 B 4 = m ∧ w16 B 8 = b ∧ w16 B 10 = c ∧ UInt32.ofNat (o24 B 12) = r ∧ w8 B 15 = f ∧
+    w32 B 0 = s ∧ w32 B 4 = m ∧ w16 B 8 = b ∧ w16 B 10 = c ∧
+      UInt32.ofNat (o24 B 12) = UInt32.ofNat (r.toNat % 16777216) ∧ w8 B 15 = f ∧
       B.drop 16 = pl ++ Z := by
   intro B
   have hB : B = be32 s ++ (be32 m ++ (be16 b ++ (be16 c ++ (be24n (r.toNat % 16777216) ++ (f :: (pl ++ Z)))))) := by
@@ -643,7 +644,7 @@ theorem twcc_fields (s m : UInt32) (b c : UInt16) (r : UInt32) (f : UInt8) (pl Z
       show (2 : Nat) = 0 + 2 from rfl, w16_skip2, w16_be16]
   · rw [show (12 : Nat) = 8 + 4 from rfl, o24_skip4, show (8 : Nat) = 4 + 4 from rfl, o24_skip4,
       show (4 : Nat) = 2 + 2 from rfl, o24_skip2, show (2 : Nat) = 0 + 2 from rfl, o24_skip2]
-    apply UInt32.toNat_inj.mp
+    congr 1
     simp [o24, be24n]; omega
   · rw [show (15 : Nat) = 11 + 4 from rfl, w8_skip4, show (11 : Nat) = 7 + 4 from rfl, w8_skip4,
       show (7 : Nat) = 5 + 2 from rfl, w8_skip2, show (5 : Nat) = 3 + 2 from rfl, w8_skip2]
@@ -651,93 +652,91 @@ theorem twcc_fields (s m : UInt32) (b c : UInt16) (r : UInt32) (f : UInt8) (pl Z
   · simp [be32, be16, be24n]
 
 theorem rfc_twcc (s m : UInt32) (b c : UInt16) (r : UInt32) (f : UInt8) (pl : Bytes) (bs : Bytes)
-    (h : marshalOne (.twcc s m b c r f pl) = .ok bs) : readTwcc bs = some (.twcc s m b c r f pl) := by
+    (h : marshalOne (.twcc s m b c r f pl) = .ok bs) :
+    readTwcc bs = some (.twcc s m b c (UInt32.ofNat (r.toNat % 16777216)) f pl) := by
   simp only [marshalOne] at h
-  by_cases hr : r.toNat > 16777215
-  · rw [if_pos hr] at h; cases h
-  · rw [if_neg hr] at h
-    unfold twccEmit at h
-    cases hf : fits (twccPadded (twccBody s m b c r f pl)) with
-    | false => rw [hf] at h; simp at h
-    | true =>
-      rw [hf] at h; simp only [if_true] at h
-      injection h with h; subst h
-      have hl : (twccBody s m b c r f pl).length = 16 + pl.length := by simp [twccBody]; omega
-      unfold twccWire
-      by_cases hp : pad4 (twccBody s m b c r f pl).length = 0
-      · -- aligned: no padding
-        have hpd : twccPadded (twccBody s m b c r f pl) = twccBody s m b c r f pl := by simp [twccPadded, hp]
-        rw [hpd] at hf
-        rw [if_pos hp, c15FmtTwcc_val, c15RtcpRtpfb_val]
-        have hal : (twccBody s m b c r f pl).length % 4 = 0 := by unfold pad4 at hp; omega
-        obtain ⟨h1, h2, h3⟩ := writeRtcp_shape 15 205 _ (by omega) (by omega) hal hf
-        obtain ⟨f1, f2, f3, f4, f5, f6, f7⟩ := twcc_fields s m b c r f pl [] (by omega)
-        simp only [List.append_nil] at f1 f2 f3 f4 f5 f6 f7
-        generalize writeRtcp 15 205 (twccBody s m b c r f pl) = bs at *
-        unfold readTwcc
-        rw [h1]
-        simp only [Bool.false_eq_true, if_false, Nat.add_zero, Nat.sub_zero]
-        rw [if_pos ⟨by trivial, by trivial, by trivial, by rw [h2]; omega, by rw [h2]; omega, by intro hh; cases hh⟩]
-        have e : ∀ i, bs.drop (4 + i) = (twccBody s m b c r f pl).drop i := fun i => by rw [← List.drop_drop, h3]
-        rw [show (4 : Nat) = 4 + 0 from rfl, w32_shift, show (8 : Nat) = 4 + 4 from rfl, w32_shift,
-          show (12 : Nat) = 4 + 8 from rfl, w16_shift, show (14 : Nat) = 4 + 10 from rfl, w16_shift,
-          show (16 : Nat) = 4 + 12 from rfl, o24_shift, show (19 : Nat) = 4 + 15 from rfl, w8_shift,
-          show (20 : Nat) = 4 + 16 from rfl, e 16, h3, f1, f2, f3, f4, f5, f6, f7, h2,
-          List.take_of_length_le (by omega)]
-      · -- RTCP padding: P bit and count
-        rw [if_neg hp]
-        have hp3 := pad4_lt (twccBody s m b c r f pl).length
-        have hal := pad4_aligned (twccBody s m b c r f pl).length
-        generalize hk : pad4 (twccBody s m b c r f pl).length = k at hp hp3 hal
-        have hpd : twccPadded (twccBody s m b c r f pl) = twccBody s m b c r f pl ++ (List.replicate (k - 1) 0 ++ [u8 k]) := by
-          simp [twccPadded, hk, hp, List.append_assoc]
-        rw [hpd] at hf ⊢
-        have hZ : (List.replicate (k - 1) 0 ++ [u8 k] : Bytes).length = k := by simp; omega
-        have hBl : (twccBody s m b c r f pl ++ (List.replicate (k - 1) 0 ++ [u8 k])).length = 16 + pl.length + k := by
-          rw [List.length_append, hl, hZ]
-        rw [c15FmtTwcc_val, c15RtcpRtpfb_val, writeRtcp_aligned 15 205 _ (by omega) (by omega)]
-        simp only
-        obtain ⟨f1, f2, f3, f4, f5, f6, f7⟩ := twcc_fields s m b c r f pl (List.replicate (k - 1) 0 ++ [u8 k]) (by omega)
-        generalize hBd : twccBody s m b c r f pl ++ (List.replicate (k - 1) 0 ++ [u8 k]) = B at *
-        have hfl := fits_len hf
-        have hB4 : B.length % 4 = 0 := by omega
-        have hb0 : (u8 (128 + 15) ||| 32).toNat = 175 := by simp [u8]
-        unfold readTwcc
-        have hh : hdr ((u8 (128 + 15) ||| 32) :: u8 205 :: u8 (B.length / 4 / 256 % 256) :: u8 (B.length / 4 % 256) :: B) =
-            ⟨2, true, 15, 205, B.length / 4⟩ := by
-          simp only [hdr, o8, o16, List.drop_zero, List.drop_succ_cons, hb0, u8_toNat, Hdr.mk.injEq,
-            decide_eq_true_eq]
-          refine ⟨trivial, trivial, trivial, trivial, by omega⟩
-        rw [hh]
-        simp only [if_true, List.length_cons]
-        have hlast : o8 ((u8 (128 + 15) ||| 32) :: u8 205 :: u8 (B.length / 4 / 256 % 256) :: u8 (B.length / 4 % 256) :: B)
-            (B.length + 1 + 1 + 1 + 1 - 1) = k := by
-          have h1 : B.length + 1 + 1 + 1 + 1 - 1 = 4 + (B.length - 1) := by omega
-          rw [h1, o8_shift]
-          simp only [List.drop_succ_cons, List.drop_zero]
-          have h2 : B = (twccBody s m b c r f pl ++ List.replicate (k - 1) 0) ++ [u8 k] := by
-            rw [← hBd]; simp [List.append_assoc]
-          have h3 : B.length - 1 = (twccBody s m b c r f pl ++ List.replicate (k - 1) 0).length := by
-            rw [hBl]; simp only [List.length_append, List.length_replicate, hl]; omega
-          have h4 := o8_shift B (B.length - 1) 0
-          simp only [Nat.add_zero] at h4
-          rw [h4, h3]
-          conv => lhs; rw [h2, List.drop_left]
-          simp [o8]; omega
-        rw [hlast]
-        rw [if_pos ⟨by trivial, by trivial, by trivial, by omega, by omega, fun _ => by omega⟩]
-        have e : ∀ i, ((u8 (128 + 15) ||| 32) :: u8 205 :: u8 (B.length / 4 / 256 % 256) :: u8 (B.length / 4 % 256) :: B).drop (4 + i) = B.drop i := by
-          intro i; rw [← List.drop_drop]; rfl
-        have h3 := e 0
-        simp only [Nat.add_zero, List.drop_zero] at h3
-        rw [show (4 : Nat) = 4 + 0 from rfl, w32_shift, show (8 : Nat) = 4 + 4 from rfl, w32_shift,
-          show (12 : Nat) = 4 + 8 from rfl, w16_shift, show (14 : Nat) = 4 + 10 from rfl, w16_shift,
-          show (16 : Nat) = 4 + 12 from rfl, o24_shift, show (19 : Nat) = 4 + 15 from rfl, w8_shift,
-          show (20 : Nat) = 4 + 16 from rfl, e 16]
-        simp only [Nat.add_zero] at h3 ⊢
-        rw [h3, f1, f2, f3, f4, f5, f6, f7]
-        congr 2
-        rw [List.take_append_of_le_length (by omega), List.take_of_length_le (by omega)]
+  unfold twccEmit at h
+  cases hf : fits (twccPadded (twccBody s m b c r f pl)) with
+  | false => rw [hf] at h; simp at h
+  | true =>
+    rw [hf] at h; simp only [if_true] at h
+    injection h with h; subst h
+    have hl : (twccBody s m b c r f pl).length = 16 + pl.length := by simp [twccBody]; omega
+    unfold twccWire
+    by_cases hp : pad4 (twccBody s m b c r f pl).length = 0
+    · -- aligned: no padding
+      have hpd : twccPadded (twccBody s m b c r f pl) = twccBody s m b c r f pl := by simp [twccPadded, hp]
+      rw [hpd] at hf
+      rw [if_pos hp, c15FmtTwcc_val, c15RtcpRtpfb_val]
+      have hal : (twccBody s m b c r f pl).length % 4 = 0 := by unfold pad4 at hp; omega
+      obtain ⟨h1, h2, h3⟩ := writeRtcp_shape 15 205 _ (by omega) (by omega) hal hf
+      obtain ⟨f1, f2, f3, f4, f5, f6, f7⟩ := twcc_fields s m b c r f pl []
+      simp only [List.append_nil] at f1 f2 f3 f4 f5 f6 f7
+      generalize writeRtcp 15 205 (twccBody s m b c r f pl) = bs at *
+      unfold readTwcc
+      rw [h1]
+      simp only [Bool.false_eq_true, if_false, Nat.add_zero, Nat.sub_zero]
+      rw [if_pos ⟨by trivial, by trivial, by trivial, by rw [h2]; omega, by rw [h2]; omega, by intro hh; cases hh⟩]
+      have e : ∀ i, bs.drop (4 + i) = (twccBody s m b c r f pl).drop i := fun i => by rw [← List.drop_drop, h3]
+      rw [show (4 : Nat) = 4 + 0 from rfl, w32_shift, show (8 : Nat) = 4 + 4 from rfl, w32_shift,
+        show (12 : Nat) = 4 + 8 from rfl, w16_shift, show (14 : Nat) = 4 + 10 from rfl, w16_shift,
+        show (16 : Nat) = 4 + 12 from rfl, o24_shift, show (19 : Nat) = 4 + 15 from rfl, w8_shift,
+        show (20 : Nat) = 4 + 16 from rfl, e 16, h3, f1, f2, f3, f4, f5, f6, f7, h2,
+        List.take_of_length_le (by omega)]
+    · -- RTCP padding: P bit and count
+      rw [if_neg hp]
+      have hp3 := pad4_lt (twccBody s m b c r f pl).length
+      have hal := pad4_aligned (twccBody s m b c r f pl).length
+      generalize hk : pad4 (twccBody s m b c r f pl).length = k at hp hp3 hal
+      have hpd : twccPadded (twccBody s m b c r f pl) = twccBody s m b c r f pl ++ (List.replicate (k - 1) 0 ++ [u8 k]) := by
+        simp [twccPadded, hk, hp, List.append_assoc]
+      rw [hpd] at hf ⊢
+      have hZ : (List.replicate (k - 1) 0 ++ [u8 k] : Bytes).length = k := by simp; omega
+      have hBl : (twccBody s m b c r f pl ++ (List.replicate (k - 1) 0 ++ [u8 k])).length = 16 + pl.length + k := by
+        rw [List.length_append, hl, hZ]
+      rw [c15FmtTwcc_val, c15RtcpRtpfb_val, writeRtcp_aligned 15 205 _ (by omega) (by omega)]
+      simp only
+      obtain ⟨f1, f2, f3, f4, f5, f6, f7⟩ := twcc_fields s m b c r f pl (List.replicate (k - 1) 0 ++ [u8 k])
+      generalize hBd : twccBody s m b c r f pl ++ (List.replicate (k - 1) 0 ++ [u8 k]) = B at *
+      have hfl := fits_len hf
+      have hB4 : B.length % 4 = 0 := by omega
+      have hb0 : (u8 (128 + 15) ||| 32).toNat = 175 := by simp [u8]
+      unfold readTwcc
+      have hh : hdr ((u8 (128 + 15) ||| 32) :: u8 205 :: u8 (B.length / 4 / 256 % 256) :: u8 (B.length / 4 % 256) :: B) =
+          ⟨2, true, 15, 205, B.length / 4⟩ := by
+        simp only [hdr, o8, o16, List.drop_zero, List.drop_succ_cons, hb0, u8_toNat, Hdr.mk.injEq,
+          decide_eq_true_eq]
+        refine ⟨trivial, trivial, trivial, trivial, by omega⟩
+      rw [hh]
+      simp only [if_true, List.length_cons]
+      have hlast : o8 ((u8 (128 + 15) ||| 32) :: u8 205 :: u8 (B.length / 4 / 256 % 256) :: u8 (B.length / 4 % 256) :: B)
+          (B.length + 1 + 1 + 1 + 1 - 1) = k := by
+        have h1 : B.length + 1 + 1 + 1 + 1 - 1 = 4 + (B.length - 1) := by omega
+        rw [h1, o8_shift]
+        simp only [List.drop_succ_cons, List.drop_zero]
+        have h2 : B = (twccBody s m b c r f pl ++ List.replicate (k - 1) 0) ++ [u8 k] := by
+          rw [← hBd]; simp [List.append_assoc]
+        have h3 : B.length - 1 = (twccBody s m b c r f pl ++ List.replicate (k - 1) 0).length := by
+          rw [hBl]; simp only [List.length_append, List.length_replicate, hl]; omega
+        have h4 := o8_shift B (B.length - 1) 0
+        simp only [Nat.add_zero] at h4
+        rw [h4, h3]
+        conv => lhs; rw [h2, List.drop_left]
+        simp [o8]; omega
+      rw [hlast]
+      rw [if_pos ⟨by trivial, by trivial, by trivial, by omega, by omega, fun _ => by omega⟩]
+      have e : ∀ i, ((u8 (128 + 15) ||| 32) :: u8 205 :: u8 (B.length / 4 / 256 % 256) :: u8 (B.length / 4 % 256) :: B).drop (4 + i) = B.drop i := by
+        intro i; rw [← List.drop_drop]; rfl
+      have h3 := e 0
+      simp only [Nat.add_zero, List.drop_zero] at h3
+      rw [show (4 : Nat) = 4 + 0 from rfl, w32_shift, show (8 : Nat) = 4 + 4 from rfl, w32_shift,
+        show (12 : Nat) = 4 + 8 from rfl, w16_shift, show (14 : Nat) = 4 + 10 from rfl, w16_shift,
+        show (16 : Nat) = 4 + 12 from rfl, o24_shift, show (19 : Nat) = 4 + 15 from rfl, w8_shift,
+        show (20 : Nat) = 4 + 16 from rfl, e 16]
+      simp only [Nat.add_zero] at h3 ⊢
+      rw [h3, f1, f2, f3, f4, f5, f6, f7]
+      congr 2
+      rw [List.take_append_of_le_length (by omega), List.take_of_length_le (by omega)]
 
 /-! ### RTP -/
 
@@ -885,5 +884,79 @@ theorem rfc_rtp (p : Packet) (w : p.hdr.WF) (bs : Bytes) (h : marshalPacket p = 
         rw [← hT, List.take_append_of_le_length (by omega), List.take_of_length_le (by omega)]
       rw [this]
       simp [hpt']
+
+/-! ### RTCP padding on received packets -/
+
+/-- a packet that carries RTCP padding is handed to the per-type parser WITHOUT the padding, whatever
+its type and format (SR, RR, SDES, BYE, every feedback format) -/
+theorem parseCompound_withPadding (fmt pt : Nat) (body z rest : Bytes) (hf : fmt < 32) (hpt : pt < 256)
+    (hz : z.length < 255) (hal : (body.length + z.length + 1) % 4 = 0)
+    (hlen : body.length + z.length + 1 < 262144) :
+    parseCompound (withPadding fmt pt body z ++ rest) =
+      match parseOne pt fmt body with
+      | .error e => .error e
+      | .ok o =>
+        match parseCompound rest with
+        | .error e => .error e
+        | .ok ps => .ok (match o with | some p => p :: ps | none => ps) := by
+  unfold withPadding
+  rw [show (2 * 64 : Nat) = c15RtpVersion * 64 from by rw [c15RtpVersion_val]]
+  generalize hk : z.length + 1 = k
+  generalize hBd : body ++ z ++ [u8 k] = B
+  have hBl : B.length = body.length + k := by rw [← hBd]; simp; omega
+  have hBl' : body.length + z.length + 1 = B.length := by omega
+  rw [hBl']
+  have hB4 : B.length % 4 = 0 := by omega
+  simp only [be16n, List.cons_append, List.nil_append]
+  rw [parseCompound]
+  have hv : (u8 (c15RtpVersion * 64 + 32 + fmt % 32)).toNat = 160 + fmt := by
+    rw [u8_toNat, c15RtpVersion_val]; omega
+  have hl : (rd16 (u8 (B.length / 4 / 256 % 256)) (u8 (B.length / 4 % 256))).toNat * 4 = B.length := by
+    rw [rd16_be16n]; omega
+  have hptn : (u8 pt).toNat = pt := u8_toNat_lt hpt
+  rw [if_neg (by rw [hv, c15RtpVersion_val]; omega)]
+  simp only [hv, hl, hptn]
+  have h2 : ((160 + fmt) / 32 % 2 == 1) = true := by
+    have : (160 + fmt) / 32 % 2 = 1 := by omega
+    simp [this]
+  have h3 : (160 + fmt) % 32 = fmt := by omega
+  rw [h2, h3]
+  simp only [if_true, List.length_append, Bool.true_and]
+  rw [if_neg (by omega)]
+  simp only [List.take_left']
+  have hlast : B.getLast? = some (u8 k) := by rw [← hBd]; simp
+  have hkn : (u8 k).toNat = k := u8_toNat_lt (by omega)
+  simp only [hlast, Option.getD_some, hkn]
+  have hcond : (decide (k = 0) || decide (k > B.length)) = false := by
+    have h1 : ¬ k = 0 := by omega
+    have h2 : ¬ k > B.length := by omega
+    simp [h1, h2]
+  rw [hcond]
+  simp only [Bool.false_eq_true, if_false]
+  have htake : B.take (B.length - k) = body := by
+    have : B.length - k = body.length := by omega
+    rw [this, ← hBd, List.append_assoc, List.take_left' rfl]
+  rw [htake, List.drop_left']
+  · cases parseOne pt fmt body with
+    | error e => rfl
+    | ok o =>
+      cases parseCompound rest with
+      | error e => rfl
+      | ok ps => cases o <;> rfl
+  · rfl
+
+/-- hence padding is transparent: the padded packet parses exactly like the same packet without padding -/
+theorem parseCompound_padding_transparent (fmt pt : Nat) (body z rest : Bytes) (hf : fmt < 32) (hpt : pt < 256)
+    (hz : z.length < 255) (hb : body.length % 4 = 0) (hal : (z.length + 1) % 4 = 0)
+    (hlen : body.length + z.length + 1 < 262144) :
+    parseCompound (withPadding fmt pt body z ++ rest) = parseCompound (writeRtcp fmt pt body ++ rest) := by
+  rw [parseCompound_withPadding fmt pt body z rest hf hpt hz (by omega) hlen,
+    parseCompound_writeRtcp fmt pt body rest hf hpt (by omega), padded_of_aligned hb]
+  cases parseOne pt fmt body with
+  | error e => rfl
+  | ok o =>
+    cases parseCompound rest with
+    | error e => rfl
+    | ok ps => cases o <;> rfl
 
 end RtcModel.C15.Rfc
